@@ -35,3 +35,25 @@ Proof. exact (Wantlist_proofs.C17_flags sdh k c). Qed.
 Print Assumptions C17_want_block_only_after_have.
 Print Assumptions C17_have_gets_want_block.
 Print Assumptions C17_flags.
+
+(* ---- at the client behaviour (package K, Net_proofs44: every peer entry of Client.v is a state of the Wantlist.v history
+   model whose presence events are presences that peer really sent): a WANT_BLOCK for x goes to p only after p sent HAVE x,
+   for ANY op list of the client; between beetswap nodes (which never send presences) no WANT_BLOCK is ever on the wire. *)
+From BS Require Import Types Wantlist Wantlist_proofs2 Client Client_proofs Client_proofs4 Net Net_proofs Net_proofs6 Net_props Net_proofs2 Net_proofs5 Net_proofs21 Net_proofs40 Net_proofs41 Net_proofs42 Net_proofs43 Net_proofs44 Net_proofs45 Net_proofs46 Net_proofs47 Server Net_props4.
+From Coq Require Import ZArith Lia.
+Open Scope N_scope.
+
+Theorem C17_client_want_block_only_after_have :
+  forall (sdh : bool) (ops : list cop) (ch : list (peer * conn)) (p : peer) (c : conn) 
+    (f : bool) (es : list gen_entry) (x : cid),
+  In (OSendWantlist p c f es) (snd (c_poll (st_after sdh ops) ch)) ->
+  In (KWantBlock, x) es -> got_have p x ops.
+Proof. exact (@Net_props4.C17_client_want_block_only_after_have). Qed.
+
+Theorem C17_net_want_block_only_after_have :
+  forall (Sz : N) (Hh : hash_fn) (n : nat) (ops : list nop) (i : N) (m : wmsg) (c : cid),
+  In m (wsent_run Sz Hh (net_init n) ops i) -> ~ In (KWantBlock, c) (wm_entries m).
+Proof. exact (@Net_props4.C17_net_want_block_only_after_have). Qed.
+
+Print Assumptions C17_client_want_block_only_after_have.
+Print Assumptions C17_net_want_block_only_after_have.
